@@ -431,11 +431,15 @@ def run_fuzz(inp, rng):
                                  protos="ok-none", exts="ok-none", onconn="ok-none"), random.Random(1))
     for i in range(inp["n"]):
         role = rng.choice(["server", "client"])
-        kind = rng.choice(["random", "bitflip", "truncate", "oversize", "nonascii", "nul", "delete-required", "webstatus-query"])
+        kind = rng.choice(["random", "bitflip", "truncate", "oversize", "nonascii", "nul", "delete-required", "webstatus-query", "flash"])
         log = []
         must_not = False
+        if kind == "flash":
+            role = "server"
         if role == "server":
-            p, t = wsx.make_server(log)
+            # (the Flash socket policy branch: a policy request is answered with the policy file and a drop, never with an
+            # open connection; a server not configured for it just never completes a handshake)
+            p, t = wsx.make_server(log, opts=(dict(serveFlashSocketPolicy=rng.random() < 0.6) if kind == "flash" else None))
             src = base
         else:
             p, t = wsx.make_client(log)
@@ -461,6 +465,10 @@ def run_fuzz(inp, rng):
         elif kind == "nul":
             pos = rng.randrange(len(src) - 4)
             data = src[:pos] + b"\x00" + src[pos:]
+        elif kind == "flash":
+            data = rng.choice([b"<policy-file-request/>\x00", b"<policy-file-request/>\x00GET / HTTP/1.1\r\n\r\n", b"<policy-file-request/>",
+                               b"xx<policy-file-request/>\x00\r\n\r\n"])
+            must_not = True
         elif kind == "delete-required":
             lines = src.split(b"\r\n")
             req = [i for i, ln in enumerate(lines) if ln.lower().startswith((b"upgrade", b"connection", b"sec-websocket-key", b"sec-websocket-accept", b"sec-websocket-version", b"host"))]
